@@ -9,7 +9,14 @@ import sqlite3
 
 import extract
 
-SQL_START = re.compile(r"^\s*(SELECT|INSERT|REPLACE|UPDATE|DELETE|BEGIN|COMMIT|ROLLBACK|SAVEPOINT|RELEASE|PRAGMA|CREATE|WITH|ALTER|DROP)\b", re.I)
+# a statement, not an English sentence that happens to start with the same word ("delete encryption key from", "Update failed"):
+# the keyword is followed by what SQL requires after it
+SQL_START = re.compile(r"^\s*(SELECT\s+(?:.*\sFROM\s|\d|EXISTS\b|COUNT\b|\*|[\w.]+\s*(?:,|$|\())|INSERT\s+(?:OR\s+\w+\s+)?INTO\b|REPLACE\s+INTO\b|"
+                       r"UPDATE\s+(?:OR\s+\w+\s+)?[\w\"\[\]`.{}]+\s+SET\b|DELETE\s+FROM\b|"
+                       r"BEGIN(?:\s+(?:IMMEDIATE|DEFERRED|EXCLUSIVE|TRANSACTION)\b.*)?\s*;?\s*$|COMMIT\b\s*(?:TRANSACTION)?\s*;?\s*$|END\s+TRANSACTION\b|"
+                       r"ROLLBACK\b\s*(?:TRANSACTION\b)?\s*(?:TO\b.*)?;?\s*(?:;.*)?$|SAVEPOINT\s+\w+|RELEASE\s+(?:SAVEPOINT\s+)?\w+\s*;?\s*$|PRAGMA\s+[\w.]+|"
+                       r"CREATE\s+(?:TEMP\w*\s+|UNIQUE\s+|VIRTUAL\s+)?(?:TABLE|INDEX|TRIGGER|VIEW)\b|WITH\s+(?:RECURSIVE\s+)?\w+\s*(?:\(|AS\b)|"
+                       r"ALTER\s+TABLE\b|DROP\s+(?:TABLE|INDEX|TRIGGER|VIEW)\b)", re.I | re.S)
 
 
 class Schema:
